@@ -44,6 +44,9 @@ func (c *ClientStream[Req]) Receive() bool {
 	if c.err != nil {
 		return false
 	}
+	// A zero-length message leaves the target untouched, so don't let the
+	// previous message's fields show through.
+	c.msg = *new(Req)
 	c.err = c.conn.Receive(&c.msg)
 	return c.err == nil
 }
